@@ -1,12 +1,31 @@
 //! Second-pass declaration checking: validate models, classes, traits, enums, functions, methods.
 
 use crate::frontend::ast::*;
-use crate::frontend::diagnostics::errors;
+use crate::frontend::diagnostics::{CompileError, errors};
 use crate::frontend::symbols::*;
 
 use super::TypeChecker;
 use incan_core::lang::derives::{self, DeriveId};
 use std::collections::HashMap;
+
+/// `float` values have no total equality / order / hash: a type holding one cannot derive Eq, Ord or Hash
+/// (rustc: `f64: Eq` is not satisfied).
+fn contains_float(ty: &ResolvedType) -> bool {
+    match ty {
+        ResolvedType::Float => true,
+        ResolvedType::Generic(_, args) | ResolvedType::Tuple(args) => args.iter().any(contains_float),
+        ResolvedType::FrozenList(t) | ResolvedType::FrozenSet(t) => contains_float(t),
+        ResolvedType::FrozenDict(k, v) => contains_float(k) || contains_float(v),
+        _ => false,
+    }
+}
+
+fn total_derive_on_float(derive_names: &[String]) -> Option<&'static str> {
+    derive_names.iter().find_map(|d| match derives::from_str(d.as_str()) {
+        Some(id @ (DeriveId::Eq | DeriveId::Ord | DeriveId::Hash)) => Some(derives::as_str(id)),
+        _ => None,
+    })
+}
 
 impl TypeChecker {
     fn method_sig_string_named(&self, method_name: &str, m: &MethodInfo) -> String {
@@ -114,6 +133,15 @@ impl TypeChecker {
         // Define fields in scope
         for field in &model.fields {
             let ty = resolve_type(&field.node.ty.node, &self.symbols);
+            if let (true, Some(derive)) = (contains_float(&ty), total_derive_on_float(&derives)) {
+                self.errors.push(CompileError::type_error(
+                    format!(
+                        "Cannot derive {derive} for '{}': field '{}' has type '{}' (float has no total equality; derive PartialEq / PartialOrd instead)",
+                        model.name, field.node.name, ty
+                    ),
+                    field.span,
+                ));
+            }
             self.symbols.define(Symbol {
                 name: field.node.name.clone(),
                 kind: SymbolKind::Field(FieldInfo {
@@ -312,8 +340,18 @@ impl TypeChecker {
         }
 
         // Define fields
+        let class_derives = Self::extract_derive_names(&class.decorators);
         for field in &class.fields {
             let ty = resolve_type(&field.node.ty.node, &self.symbols);
+            if let (true, Some(derive)) = (contains_float(&ty), total_derive_on_float(&class_derives)) {
+                self.errors.push(CompileError::type_error(
+                    format!(
+                        "Cannot derive {derive} for '{}': field '{}' has type '{}' (float has no total equality; derive PartialEq / PartialOrd instead)",
+                        class.name, field.node.name, ty
+                    ),
+                    field.span,
+                ));
+            }
             self.symbols.define(Symbol {
                 name: field.node.name.clone(),
                 kind: SymbolKind::Field(FieldInfo {
